@@ -11,8 +11,9 @@ ResultFails(ln, res, named) ==
   LET c == ln.call
   IN (IF c.op = "unprotect" /\ ln.replyKind = "seed" /\ res # "plain_ok" THEN {"unprotect_result_decrypts_correctly"} ELSE {})
      \cup (IF c.op = "unprotect" /\ ln.replyKind = "pub" /\ res \in {"plain_ok", "plain_wrong"} THEN {"MACHINERY_plaintext_without_seed_keys"} ELSE {})
-     \cup (IF c.op = "protect" /\ res # "blob_ok" THEN {"protect_result_decrypts_correctly"} ELSE {})
+     \cup (IF c.op = "protect" /\ ln.replyKind # "hresult" /\ res # "blob_ok" THEN {"protect_result_decrypts_correctly"} ELSE {})
      \cup (IF c.op = "protect" /\ res = "blob_ok" /\ named # ln.dcnow THEN {"protect_uses_the_current_key_returned_by_dc"} ELSE {})
+     \cup (IF ln.replyKind = "hresult" /\ res # "error:ValueError" THEN {"EXT_getkey_failure_hresult_surfaces_as_valueerror"} ELSE {})
 
 Fails(ln) ==
   ConversationFails(ln.call, ln.sync) \cup ConversationFails(ln.call, ln.async)
